@@ -36,7 +36,8 @@ def scripts_for_factory(ctx, ncases):
         out = []
         for i in range(ncases):
             cx = pm.random_complex(rng)
-            p = 2 if cfg.z2 else rng.choice([3, 5, 7, 11, 13, 65521, 3, 5])
+            # 65521 rarely: its inverse table costs O(p^2) (about 3 s of CPU per matrix)
+            p = 2 if cfg.z2 else (65521 if rng.random() < 0.03 else rng.choice([3, 5, 7, 11, 13, 251, 3, 5]))
             name = "%s#%d(%s,p=%d)" % (cfg.tag, i, cx.desc, p)
             out.append((name, pm.script_c05(rng, cx, cfg, p, name)))
         return out
